@@ -84,6 +84,58 @@ def _chunk(args):
                 break
     return nvar, fails
 
+def _cli_chunk(args):
+    """the same through the command line (TelApp.main reads the files): one file vs the statements spread over files"""
+    seed, n = args
+    import tempfile, shutil, os
+    import props.c10 as c10
+    r = random.Random(seed)
+    fails = []
+    cnt = 0
+    tmp = tempfile.mkdtemp(prefix="c12_")
+    def answers(paths):
+        rc, out, err = c10.run_cli(paths, None, ["0", "--imin=3", "--imax=3"])
+        if "Traceback" in err or "Traceback" in out:
+            return ("crash", err[-200:])
+        res = {}
+        for pa in c10.parse_states(out):
+            order = pa.get("_order", [])
+            res.setdefault(len(order) - 1, set()).add(tuple(sorted("{}@{}".format(a, k) for k in order for a in pa.get(k, []))))
+        return ("ok", {h: sorted(v) for h, v in res.items()})
+    try:
+        for i in range(n):
+            rules = [x for x in gen_base(r) if x[2][0] != "tel" or True]
+            one = os.path.join(tmp, "one{}.lp".format(i))
+            open(one, "w").write(tl.render_prog(rules))
+            if i % 2 == 0:
+                k = r.randint(1, max(1, len(rules) - 1))
+                parts = [rules[:k], rules[k:]] if rules[k:] else [rules]
+                if r.random() < 0.5:
+                    parts.reverse()
+                texts = [tl.render_prog(ps) for ps in parts]
+            else:
+                # every file starts in the initial part: the statements of the initial part without any directive in a file of
+                # their own, after a file that ends in another part
+                rules = rules + [("rule", "initial", ("choice", "a"), ())]
+                ini = [x for x in rules if x[1] == "initial"]
+                rest = [x for x in rules if x[1] != "initial"]
+                texts = ([tl.render_prog(rest)] if rest else []) + ["\n".join(tl.render_rule(x, None, with_part=False) for x in ini)]
+                open(one, "w").write(tl.render_prog(rules))
+                parts = [rest, ini]
+            paths = []
+            for j, t in enumerate(texts):
+                p = os.path.join(tmp, "part{}_{}.lp".format(i, j))
+                open(p, "w").write(t)
+                paths.append(p)
+            a, b = answers([one]), answers(paths)
+            cnt += 1
+            if a != b:
+                fails.append({"kind": "cli-layout", "text": tl.render_prog(rules) + "\n%%% versus the files\n" + "\n%%% next file\n".join(texts),
+                              "input": [[tl.render_prog(rules)], texts], "one_file": str(a)[:300], "files": str(b)[:300]})
+    finally:
+        shutil.rmtree(tmp, ignore_errors=True)
+    return cnt, fails
+
 def correspondence(ctx):
     # the model's ground program on permuted/duplicated rule programs
     r = random.Random(ctx.seed * 73 + 1)
@@ -105,8 +157,12 @@ def search(ctx, deep):
     for c, f in par.pmap(_chunk, work, ctx.jobs):
         nvar += c
         fails += f
+    ncli = 0
+    for c, f in par.pmap(_cli_chunk, [(ctx.seed * 1013 + j, 2 if ctx.tier == "quick" else 8) for j in range(ctx.jobs)], ctx.jobs):
+        ncli += c
+        fails += f
     rr = random.Random(ctx.seed)
-    return {"base_programs": n * ctx.jobs, "variants_compared": nvar, "horizons": "0..{}".format(H),
+    return {"base_programs": n * ctx.jobs, "command_line_layouts": ncli, "variants_compared": nvar, "horizons": "0..{}".format(H),
             "variant_kinds": ["permuted", "duplicated", "two files", "three files, permuted", "one rule per file"],
             "sample": {"program": tl.render_prog(gen_base(rr))}}, fails
 
